@@ -1,7 +1,62 @@
-import CddVerif.Proofs.DocSplitStructField
+import CddVerif.Proofs.DocSplitStructNumpy
 import CddVerif.Properties.C15
 /-!
 # C15 — where the split falls, for structured docstrings of unbounded size
+
+`Properties/C15.lean` proves the slice algebra (`slice_partition`: the three slices concatenate to the original *if*
+`start ≤ last` or one index is −1); that the walkers' indices are ordered, and *where* they fall, was only observed there.
+Here both are **proved on the model** (`DocSplit.idxPair` = `_get_token_start_idx` / `_get_token_last_idx` of
+`cdd/shared/docstring_utils.py`) for every docstring `header ++ section ++ footer` in an explicit decidable domain: any
+number of lines, lines of any length.  Nothing in `Model/*.lean` is changed: every `for` loop of the walkers is restated as a
+structural scan and proved equal to the model's definition (`Proofs/DocSplitStructLoops.lean`); the `while` loops are
+characterised by stepping lemmas and a loop-invariant rule.
+
+What is stated is what the walkers really return (found by evaluation first, then proved) — it is *not* "blank line + prose
+= footer":
+
+* `start` is always `|header|`: the header slice is the header, byte for byte (all styles).
+* ReST / Google (`field_…`; the two styles go through the same code, `fieldTokens = restTokens ++ googleTokens`); `L` is
+  the line holding the last member of `TOKENS_SET` that occurs as a word.  What follows `L` decides `last`:
+  * **compact** (`field_compact_split`): `L` is directly followed by a line `T` starting with a token (`:return: …`) —
+    `last` = end of `T`; the footer is the rest, starting with the newline of `T`.  (A `:rtype:` line after `:return:`
+    is in the footer: `rtype_lands_in_footer`.)
+  * **adjacent** (`field_adjacent_split`): `L`'s newline is followed by a non-blank, non-token character — `last` = right there.
+  * **absorbed** (`field_absorbed_split`, `_pieces`, `_nl`): `L` is followed by white space (a blank line, an indented
+    line — every Google docstring, every indented docstring, and the ReST layout this code base emits).  Then the
+    footer slice is **only the last line of the docstring** without its indentation (empty if the docstring ends in a
+    newline): prose after a blank line is in the *section* slice.
+  * **unterminated** (`field_unterminated_split`): `L` is the last line, no newline after it — `last` = the length.
+  * **no token word** (`field_no_token_split`; e.g. only `:return:` / `:rtype:` lines): `last = −1`, footer `None`.
+  * **single unterminated section line** (`field_single_line_split`, `field_single_line_header_lost`): the section is one
+    last line without a newline — `start = −1`: `_get_token_start_idx` only acts on a newline, the header is **not** split
+    off (header `None`; on the real code conversion then loses the header prose: `single_line_witness`).
+  * **`Raises:`** as the last token (`field_raises_split`, `_pieces`): `last` = the newline before the heading.  If it
+    is the *only* heading, `start = |header| > last = |header| − 1` for **every** such docstring and the slices do not
+    concatenate to the original (`raises_only_not_partition`; real code: same pair).
+* NumPy (`numpy_split`, `numpy_partitions`, `numpy_no_colon_cut`): `last` = (answer of the line loop of
+  `_get_token_last_idx_if_no_next_token`) + 1, never before the body of the last section; when that body has no colon
+  (the usual `Returns` section) the footer slice begins at the **second character** of the first body line.
+* On the union of the domains (`Structured`) `C15.C15_split_full` is a theorem with no ordering hypothesis
+  (`C15_split_structured`, `idx_ordered`); the parts are the pieces byte for byte (`exact_parts`), and conversion keeps
+  header and footer around the new section (`exact_whence`, `field_…_whence`, `numpy_whence`, `whence_slices`).
+
+## The domain (all clauses are `Bool` functions, evaluated by `decide` on the examples)
+
+* header lines `hs`: each one line that does not start (after indentation) with a member of `TOKENS_SET` (`headerLineOk`;
+  prefix test — `Returns the value` is rejected; tokens *inside* a header line are allowed);
+* section lines `ss ++ [L]`: one line each; the first starts (after indentation) with a ReST or Google token (`fieldStart`);
+  `L`'s last token event is a plain token word (`tokLine`);
+* what follows is **quiet** (`quiet`: scanning it, `_last_doc_str_token` finds nothing) and shaped as the family says;
+* adjacent / absorbed / unterminated / Raises: `2 ≤ |header ++ earlier section lines|` (a newline at an index ≥ 1 before `L`;
+  used for `_get_start_of_last_found`; evaluation suggests it is not needed, it is not proved away);
+* NumPy: headings not indented, underline at least as long as the heading, body quiet and without a token at any line start.
+
+## Which restrictions are essential
+
+`…_needed` theorems at the end: each is a concrete docstring violating one clause on which the model (evaluated by the
+kernel through `DSS.idxPairF`, proved equal to `idxPair` for every string) returns a different pair; each was replayed on
+the real walkers with `/venv/bin/python`, which return the same pair.  `header_exact_keyword_line_harmless` and
+`numpy_format_irrelevant` document two clauses that are sufficient but not necessary / not needed.
 -/
 namespace C15Struct
 open Py DocUtils DocSplit DSS C15
@@ -24,6 +79,8 @@ def compactDom (hs ss : List Str) (L T footer : Str) : Bool :=
   fieldCommon hs ss L && lineOk T && startsWithAny tokensSet T && (footer.isEmpty || footer.head? == some '\n')
     && quiet none [] (T ++ footer)
 
+/-- **Structural split, compact field list (clause 1 of C15, exact):** `start = |header|`, `last = |header| + |section|`
+    with `section = (lines ss) ++ L ++ "\n" ++ T` -/
 theorem field_compact_split (hs ss : List Str) (L T footer : Str) (h : compactDom hs ss L T footer = true) :
     idxPair (unlines hs ++ (unlines ss ++ L ++ '\n' :: T) ++ footer)
       = .ok (((unlines hs).length : Int), (((unlines hs).length + (unlines ss ++ L ++ '\n' :: T).length : Nat) : Int)) := by
@@ -39,24 +96,14 @@ theorem field_compact_split (hs ss : List Str) (L T footer : Str) (h : compactDo
   congr 3
   simp only [unlines_append, List.length_append, List.length_cons]; omega
 
-/-- `L` is the Google `Raises:` heading (treated specially by `_get_token_last_idx_if_no_next_token`) -/
-def isRaises (L : Str) : Bool := lstrip L == "Raises:".toList
-
-theorem lineVerdict_none (n : Nat) (L : Str) (h : isRaises L = false) : lineVerdict n L = none := by
-  unfold lineVerdict; unfold isRaises at h; rw [h]; rfl
-
-theorem lineVerdict_raises (n : Nat) (L : Str) (h : isRaises L = true) : lineVerdict n L = some ((n : Int) - 1) := by
-  unfold lineVerdict; unfold isRaises at h; rw [h]; rfl
-
-theorem tokLine_lineOk (L : Str) (h : tokLine L = true) : '\n' ∉ L := by
-  simp only [tokLine, Bool.and_eq_true] at h; exact lineOk_sound L h.1
-
 /-- **adjacent** field list: the section ends with the newline of the last-token line `L`; the footer is empty or starts
     with a non-blank character that does not begin a token, and the walker finds no token in it -/
 def adjacentDom (hs ss : List Str) (L footer : Str) : Bool :=
   fieldCommon hs ss L && !isRaises L && decide (2 ≤ (unlines (hs ++ ss)).length)
     && (match footer with | [] => true | c :: _ => !isSpaceC c) && !startsWithAny tokensSet footer && quiet none [] footer
 
+/-- **Structural split, adjacent footer:** `start = |header|`, `last = |header| + |section|` with
+    `section = (lines ss) ++ L ++ "\n"` -/
 theorem field_adjacent_split (hs ss : List Str) (L footer : Str) (h : adjacentDom hs ss L footer = true) :
     idxPair (unlines hs ++ (unlines ss ++ L ++ ['\n']) ++ footer)
       = .ok (((unlines hs).length : Int), (((unlines hs).length + (unlines ss ++ L ++ ['\n']).length : Nat) : Int)) := by
@@ -87,25 +134,8 @@ def absorbedDom (hs ss : List Str) (L post : Str) : Bool :=
   fieldCommon hs ss L && !isRaises L && decide (2 ≤ (unlines (hs ++ ss)).length)
     && (match post with | [] => false | c :: _ => isSpaceC c) && quiet none [] post
 
-theorem lstrip_length (Z : Str) : (lstrip Z).length = Z.length - leadingWs Z := by
-  rw [← drop_leadingWs, List.length_drop]
-
-/-- what `_get_token_last_idx` returns in the absorbed shape, in terms of the whole string -/
-theorem absorbed_last (d A : Str) (hd : d = A ++ '\n' :: lastLine d) (v : Option Int) :
-    (if startsWithAny tokensSet (lstrip (lastLine d)) then (d.length : Int)
-      else v.getD ((A.length + 1 + leadingWs (lastLine d) : Nat) : Int))
-    = if startsWithAny tokensSet (lstrip (lastLine d)) then (d.length : Int)
-      else v.getD (((d.length - (absorbedFooter d).length : Nat)) : Int) := by
-  by_cases ht : startsWithAny tokensSet (lstrip (lastLine d)) = true
-  · simp only [ht, if_true]
-  · simp only [ht, Bool.false_eq_true, if_false, absorbedFooter]
-    have h1 := congrArg List.length hd
-    have h2 := lstrip_length (lastLine d)
-    have h3 := leadingWs_le (lastLine d)
-    simp only [List.length_append, List.length_cons] at h1
-    congr 3
-    omega
-
+/-- **Structural split, absorbed shape:** `start = |header|`, `last = |d| − |absorbedFooter d|` where `absorbedFooter d` is
+    the last line of `d` without its indentation (empty if that line is empty or starts with a token) -/
 theorem field_absorbed_split (hs ss : List Str) (L post : Str) (h : absorbedDom hs ss L post = true) :
     idxPair (unlines hs ++ unlines ss ++ L ++ '\n' :: post)
       = .ok (((unlines hs).length : Int),
@@ -175,6 +205,7 @@ def unterminatedDom (hs ss : List Str) (L : Str) : Bool :=
   hs.all headerLineOk && ss.all lineOk && !ss.isEmpty && fieldStart (ss.headD []) && lineOk L
     && (lastEv none [] L .none == .plain) && startsWithAny tokensSet (lstrip L) && decide (2 ≤ (unlines (hs ++ ss)).length)
 
+/-- **Structural split, unterminated last line:** `start = |header|`, `last = |d|` (no footer) -/
 theorem field_unterminated_split (hs ss : List Str) (L : Str) (h : unterminatedDom hs ss L = true) :
     idxPair (unlines hs ++ (unlines ss ++ L) ++ [])
       = .ok (((unlines hs).length : Int), (((unlines hs).length + (unlines ss ++ L).length : Nat) : Int)) := by
@@ -193,6 +224,76 @@ theorem field_unterminated_split (hs ss : List Str) (L : Str) (h : unterminatedD
     rw [← hpe, unlines_append, List.length_append]
   congr 3
   simp only [List.length_append, List.length_cons, List.length_nil] at hlen ⊢; omega
+
+/-- the whole section is **one last line without a newline** (`L` starts, after indentation, with a ReST / Google token
+    and holds a token word) -/
+def singleLineDom (hs : List Str) (L : Str) : Bool :=
+  hs.all headerLineOk && lineOk L && fieldStart L && (lastEv none [] L .none == .plain)
+    && startsWithAny tokensSet (lstrip L) && decide (2 ≤ (unlines hs).length)
+
+/-- **Single unterminated section line: the header is not found.**  `_get_token_start_idx` acts only when it reads a
+    newline, so the last line is never examined: `start = −1`, `last = |d|`; the header slice is `None` and the section
+    slice is the whole docstring, header included. -/
+theorem field_single_line_split (hs : List Str) (L : Str) (h : singleLineDom hs L = true) :
+    idxPair (unlines hs ++ L) = .ok (-1, ((unlines hs ++ L).length : Int))
+    ∧ rawParts (unlines hs ++ L) (-1) ((unlines hs ++ L).length : Int) = (none, unlines hs ++ L, some []) := by
+  simp only [singleLineDom, Bool.and_eq_true, decide_eq_true_eq, beq_iff_eq] at h
+  obtain ⟨⟨⟨⟨⟨hh, hLok⟩, hF⟩, hL⟩, htok⟩, h2⟩ := h
+  obtain ⟨hstart, hfmt, lf, hlf, hlo, hhi⟩ := field_frame_single hs L hh hF (lineOk_sound L hLok) hL
+  obtain ⟨p, hp, hpe⟩ := unlines_snoc hs h2
+  rw [hpe] at hlf hlo hhi hfmt hstart ⊢
+  have hlast := last_unterminated p L lf hlf hlo hhi hp (lineOk_sound L hLok) (tokStart_not_dashes L htok) hfmt
+  simp only [htok, if_true] at hlast
+  refine ⟨idxPair_of _ _ _ hstart hlast, ?_⟩
+  unfold rawParts
+  have h1 : ¬ ((-1 : Int) > -1) := by omega
+  have h3 : (((p ++ ['\n'] ++ L).length : Int) > -1) = True := by simp; omega
+  have h4 : (((p ++ ['\n'] ++ L).length : Int) != -1) = true := by simp; omega
+  simp only [h1, if_false, h3, if_true, h4]
+  generalize p ++ ['\n'] ++ L = d
+  have e1 : slice d none (some (d.length : Int)) = d := by
+    rw [slice_to _ _ (by omega), Int.toNat_natCast, List.take_length]
+  have e2 : slice d (some (d.length : Int)) none = [] := by rw [slice_from_nat, List.drop_length]
+  rw [e1, e2]
+
+/-- hence `parse_docstring_into_header_args_footer(current, original)` with such an original returns **no header**:
+    whatever is re-assembled from it does not get the original's header prose from the split -/
+theorem field_single_line_header_lost (hs : List Str) (L : Str) (h : singleLineDom hs L = true) (cur : Str)
+    (hd a ft : Option Str) (hp : parseHAF cur (unlines hs ++ L) = .ok (hd, a, ft)) : hd = none := by
+  obtain ⟨hidx, hparts⟩ := field_single_line_split hs L h
+  have hne : unlines hs ++ L ≠ [] := by
+    simp only [singleLineDom, Bool.and_eq_true, decide_eq_true_eq] at h
+    intro e; have := congrArg List.length e; simp only [List.length_append, List.length_nil] at this; omega
+  obtain ⟨e1, _⟩ := parseHAF_parts cur _ _ _ hne hidx hd a ft hp
+  rw [e1, hparts]
+
+/-! ## no token word at all (e.g. a ReST section with only `:return:` / `:rtype:` lines) -/
+
+/-- the section starts with a line that begins with a ReST / Google token, but no white-space-delimited word of the
+    whole docstring is a member of `TOKENS_SET` (`:return:` and `:rtype:` are not: they carry a trailing colon) -/
+def noTokenDom (hs : List Str) (F rest : Str) : Bool :=
+  hs.all headerLineOk && lineOk F && fieldStart F && quiet none [] (unlines hs ++ F ++ '\n' :: rest)
+
+/-- then `last = −1`: the header is split off exactly, everything else is the section, the footer is `None` -/
+theorem field_no_token_split (hs : List Str) (F rest : Str) (h : noTokenDom hs F rest = true) :
+    idxPair (unlines hs ++ F ++ '\n' :: rest) = .ok (((unlines hs).length : Int), -1)
+    ∧ rawParts (unlines hs ++ F ++ '\n' :: rest) ((unlines hs).length : Int) (-1) = (some (unlines hs), F ++ '\n' :: rest, none)
+    ∧ Partitions (unlines hs ++ F ++ '\n' :: rest) ((unlines hs).length : Int) (-1) := by
+  simp only [noTokenDom, Bool.and_eq_true] at h
+  obtain ⟨⟨⟨hh, hFok⟩, hF⟩, hq⟩ := h
+  have hstart : tokenStartIdx (unlines hs ++ F ++ '\n' :: rest).toArray = ((unlines hs).length : Int) := by
+    rw [tokenStartIdx_eq]
+    have hd : unlines hs ++ F ++ '\n' :: rest = unlines hs ++ (F ++ '\n' :: rest) := by simp
+    conv => lhs; arg 2; rw [hd]
+    rw [startScan_header _ hs _ 0 (headerOk_sound hs hh)]
+    obtain ⟨h1, h2⟩ := fieldStart_fires F hF
+    rw [startScan_fire _ F _ _ (lineOk_sound F hFok) h1 h2]; simp
+  refine ⟨idxPair_of _ _ _ hstart (tokenLastIdx_quiet _ hq), ?_, slice_partition _ _ _ (by omega) (Or.inr (Or.inl rfl))⟩
+  unfold rawParts
+  have h1 : (((unlines hs).length : Int) > -1) = True := by simp; omega
+  simp only [h1, if_true, show ¬ ((-1 : Int) > -1) by omega, if_false, show ((-1 : Int) != -1) = false by decide, Bool.false_eq_true]
+  rw [slice_to _ _ (by omega), slice_from_nat]
+  simp [List.append_assoc]
 
 /-! ## the Google `Raises:` heading as the last token -/
 
@@ -301,6 +402,43 @@ theorem exact_whence (h s f : Str) (hne : h ++ s ++ f ≠ [])
     (cur r : Str) (hw : whence cur (h ++ s ++ f) = .ok r) : r = h ++ s ++ f ∨ ∃ mid, r = h ++ mid ++ f :=
   whence_sandwich cur h s f r hne hidx hw
 
+/-- conversion with a **compact** docstring as the original: header lines first, footer lines last -/
+theorem field_compact_whence (hs ss : List Str) (L T footer : Str) (h : compactDom hs ss L T footer = true) (cur r : Str)
+    (hw : whence cur (unlines hs ++ (unlines ss ++ L ++ '\n' :: T) ++ footer) = .ok r) :
+    r = unlines hs ++ (unlines ss ++ L ++ '\n' :: T) ++ footer ∨ ∃ mid, r = unlines hs ++ mid ++ footer :=
+  exact_whence _ _ _ (by simp) (field_compact_split hs ss L T footer h) cur r hw
+
+theorem field_adjacent_whence (hs ss : List Str) (L footer : Str) (h : adjacentDom hs ss L footer = true) (cur r : Str)
+    (hw : whence cur (unlines hs ++ (unlines ss ++ L ++ ['\n']) ++ footer) = .ok r) :
+    r = unlines hs ++ (unlines ss ++ L ++ ['\n']) ++ footer ∨ ∃ mid, r = unlines hs ++ mid ++ footer :=
+  exact_whence _ _ _ (by simp) (field_adjacent_split hs ss L footer h) cur r hw
+
+/-- … with an **absorbed** docstring as the original: only the header (and the last, unterminated line, if any) is kept
+    apart from the section -/
+theorem field_absorbed_whence (hs ss : List Str) (L post : Str) (h : absorbedDom hs ss L post = true) (cur r : Str)
+    (hw : whence cur (unlines hs ++ unlines ss ++ L ++ '\n' :: post) = .ok r) :
+    r = unlines hs ++ unlines ss ++ L ++ '\n' :: post
+      ∨ ∃ mid, r = unlines hs ++ mid ++ absorbedFooter (unlines hs ++ unlines ss ++ L ++ '\n' :: post) := by
+  obtain ⟨sec, hsec, hidx⟩ := field_absorbed_pieces hs ss L post h
+  have hne : unlines hs ++ sec ++ absorbedFooter (unlines hs ++ unlines ss ++ L ++ '\n' :: post) ≠ [] := by
+    rw [← hsec]; simp
+  rw [hsec] at hw
+  rcases exact_whence _ _ _ hne hidx cur r hw with h1 | h1
+  · left; rw [h1, ← hsec]
+  · right; exact h1
+
+/-- conversion with any docstring as the original, in terms of its own index pair: the result is the original, or starts
+    with the header slice and ends with the footer slice -/
+theorem whence_slices (d : Str) (s l : Int) (hne : d ≠ []) (hidx : idxPair d = .ok (s, l)) (cur r : Str)
+    (hw : whence cur d = .ok r) :
+    r = d ∨ ((rawParts d s l).1.getD [] <+: r ∧ (rawParts d s l).2.2.getD [] <:+ r) := by
+  rcases whence_preserves_header cur d r hw with h | ⟨hd, a, ft, hp, h1, h2⟩
+  · exact Or.inl h
+  · right
+    obtain ⟨e1, e2⟩ := parseHAF_parts cur d s l hne hidx hd a ft hp
+    rw [e1] at h1; rw [e2] at h2
+    exact ⟨h1, h2⟩
+
 /-! ## `start > last` -/
 
 /-- slice algebra, the other direction: with `0 ≤ last < start ≤ |d|` header and footer overlap and the three slices do
@@ -330,10 +468,107 @@ theorem raises_only_not_partition (hs : List Str) (L post : Str) (h : raisesDom 
   apply not_partitions_of_gt _ _ _ (by omega) (by omega)
   simp only [List.length_append]; omega
 
+/-! ## NumPy style -/
+
+/-- **NumPy** docstring: header lines `hs`; earlier section lines `es` (e.g. a whole `Parameters` section when the last
+    heading is `Returns`); the last heading `K` (`Parameters` / `Returns`, not indented) with its underline `D` (dashes, at
+    least as many as `K` has letters); then `body`.  The first two lines of the section are a heading and an underline;
+    the walker finds no token in `body`; no line of `body` starts (after indentation) with a token.  Nothing is asked
+    of `derive_docstring_format`: the theorem holds whether or not a ReST / Google token occurs somewhere (both exits of
+    `_get_end_of_last_found` are covered). -/
+def numpyDom (hs es : List Str) (K D body : Str) : Bool :=
+  hs.all headerLineOk && es.all lineOk
+    && (match es ++ [K, D] with | F0 :: F1 :: _ => inSet numpySet F0 && allDashes F1 | _ => false)
+    && inSet numpySet K && allDashes D && decide (K.length ≤ D.length)
+    && decide (2 ≤ (unlines (hs ++ es)).length)
+    && quiet none [] body && lineStartsOk true body
+
+/-- index of the first character of `body` -/
+def numpyBodyStart (hs es : List Str) (K D : Str) : Nat := (unlines (hs ++ es)).length + K.length + 1 + D.length + 1
+
+/-- **NumPy split**: `start = |header|` exactly; `last = e + 1` where `e` is the answer of the line loop of
+    `_get_token_last_idx_if_no_next_token` (the model's `loopC`, run from the first line of `body`), and `e` is never
+    before the start of `body` -/
+theorem numpy_split (hs es : List Str) (K D body : Str) (h : numpyDom hs es K D body = true) :
+    ∃ e : Nat, numpyBodyStart hs es K D ≤ e
+      ∧ e = ((loopC (unlines hs ++ unlines es ++ K ++ '\n' :: (D ++ '\n' :: body)).toArray).run
+                (cStart (numpyBodyStart hs es K D))).1.prevEnd
+      ∧ idxPair (unlines hs ++ unlines es ++ K ++ '\n' :: (D ++ '\n' :: body))
+          = .ok (((unlines hs).length : Int), ((e + 1 : Nat) : Int)) := by
+  simp only [numpyDom, Bool.and_eq_true, decide_eq_true_eq] at h
+  obtain ⟨⟨⟨⟨⟨⟨⟨⟨hh, hes⟩, hF⟩, hK⟩, hD⟩, hKD⟩, h2⟩, hq⟩, hls⟩ := h
+  generalize hdd : unlines hs ++ unlines es ++ K ++ '\n' :: (D ++ '\n' :: body) = d at *
+  obtain ⟨p, hp, hpe⟩ := unlines_snoc (hs ++ es) h2
+  have hd2 : d = p ++ ['\n'] ++ K ++ '\n' :: (D ++ '\n' :: body) := by
+    rw [← hdd, ← hpe, unlines_append]
+  have hS : numpyBodyStart hs es K D = p.length + 1 + K.length + 1 + D.length + 1 := by
+    unfold numpyBodyStart; rw [hpe]; simp only [List.length_append, List.length_singleton]
+  -- last
+  have hlast := numpy_last p K D body hp hK hD hKD hq hls
+  rw [← hd2, ← hS] at hlast
+  -- start
+  have hstart : tokenStartIdx d.toArray = ((unlines hs).length : Int) := by
+    cases hsl : es ++ [K, D] with
+    | nil => simp at hsl
+    | cons F0 tl =>
+      cases tl with
+      | nil =>
+        have := congrArg List.length hsl
+        simp at this
+      | cons F1 tl' =>
+        rw [hsl] at hF
+        simp only [Bool.and_eq_true] at hF
+        have hd3 : d = unlines hs ++ F0 ++ '\n' :: (F1 ++ '\n' :: (unlines tl' ++ body)) := by
+          have : d = unlines hs ++ (unlines (es ++ [K, D]) ++ body) := by
+            rw [← hdd]; simp [unlines_append, unlines_cons, unlines_nil]
+          rw [this, hsl]; simp [unlines_cons]
+        rw [hd3]; exact numpy_start hs F0 F1 _ hh hF.1 hF.2
+  refine ⟨_, ?_, rfl, ?_⟩
+  · exact loopC_prevEnd_ge d.toArray _ (cStart (numpyBodyStart hs es K D)) (Nat.le_refl _) (Nat.le_refl _)
+  · rw [idxPair_of _ _ _ hstart hlast]
+    congr 3
+
+/-- **NumPy, consequences**: the indices are ordered (strictly), the header slice is the header byte for byte, the three
+    slices concatenate to the original, and conversion keeps the header as a prefix -/
+theorem numpy_partitions (hs es : List Str) (K D body : Str) (h : numpyDom hs es K D body = true) :
+    ∃ s l, idxPair (unlines hs ++ unlines es ++ K ++ '\n' :: (D ++ '\n' :: body)) = .ok (s, l)
+      ∧ s = ((unlines hs).length : Int) ∧ s < l ∧ (numpyBodyStart hs es K D : Int) < l
+      ∧ (rawParts (unlines hs ++ unlines es ++ K ++ '\n' :: (D ++ '\n' :: body)) s l).1 = some (unlines hs)
+      ∧ Partitions (unlines hs ++ unlines es ++ K ++ '\n' :: (D ++ '\n' :: body)) s l := by
+  obtain ⟨e, he, _, hidx⟩ := numpy_split hs es K D body h
+  have hb : (unlines hs).length ≤ numpyBodyStart hs es K D := by
+    unfold numpyBodyStart; simp only [unlines_append, List.length_append]; omega
+  refine ⟨_, _, hidx, rfl, by omega, by omega, ?_, ?_⟩
+  · have : unlines hs ++ unlines es ++ K ++ '\n' :: (D ++ '\n' :: body) = unlines hs ++ (unlines es ++ K ++ '\n' :: (D ++ '\n' :: body)) := by simp
+    rw [this]; exact rawParts_header _ _ _
+  · exact slice_partition _ _ _ (by omega) (Or.inr (Or.inr (by omega)))
+
+/-- **NumPy, body without a colon** (the usual `Returns` section: a type line and indented prose): the line loop never
+    moves, `last = (start of body) + 1` — the footer slice begins at the **second character** of the first body line -/
+theorem numpy_no_colon_cut (hs es : List Str) (K D body : Str) (h : numpyDom hs es K D body = true) (hc : ':' ∉ body) :
+    idxPair (unlines hs ++ unlines es ++ K ++ '\n' :: (D ++ '\n' :: body))
+      = .ok (((unlines hs).length : Int), ((numpyBodyStart hs es K D + 1 : Nat) : Int)) := by
+  obtain ⟨e, _, he, hidx⟩ := numpy_split hs es K D body h
+  have : unlines hs ++ unlines es ++ K ++ '\n' :: (D ++ '\n' :: body) = (unlines (hs ++ es) ++ K ++ '\n' :: D) ++ '\n' :: body := by
+    simp [unlines_append]
+  have hS : numpyBodyStart hs es K D = (unlines (hs ++ es) ++ K ++ '\n' :: D).length + 1 := by
+    unfold numpyBodyStart; simp only [List.length_append, List.length_cons]; omega
+  rw [this, hS, loopC_no_colon _ body hc] at he
+  rw [hidx, he, ← hS]
+
+/-- **NumPy, conversion**: the result is the original or starts with the header, byte for byte -/
+theorem numpy_whence (hs es : List Str) (K D body : Str) (h : numpyDom hs es K D body = true) (cur r : Str)
+    (hw : whence cur (unlines hs ++ unlines es ++ K ++ '\n' :: (D ++ '\n' :: body)) = .ok r) :
+    r = unlines hs ++ unlines es ++ K ++ '\n' :: (D ++ '\n' :: body) ∨ unlines hs <+: r := by
+  obtain ⟨s, l, hidx, _, _, _, hhead, _⟩ := numpy_partitions hs es K D body h
+  rcases whence_slices _ s l (by simp) hidx cur r hw with h1 | ⟨h1, _⟩
+  · exact Or.inl h1
+  · right; rw [hhead] at h1; exact h1
+
 /-! ## the domain as one predicate, and `C15.C15_split_full` on it -/
 
-/-- the structured field-list docstrings covered by the theorems above (ReST and Google; any number of header lines,
-    section lines and footer lines, lines of any length) -/
+/-- the structured docstrings covered by the theorems above (ReST, Google, NumPy; any number of header lines, section
+    lines and footer lines, lines of any length) -/
 inductive Structured : Str → Prop
   | compact (hs ss : List Str) (L T footer : Str) (h : compactDom hs ss L T footer = true) :
       Structured (unlines hs ++ (unlines ss ++ L ++ '\n' :: T) ++ footer)
@@ -345,35 +580,62 @@ inductive Structured : Str → Prop
       Structured (unlines hs ++ (unlines ss ++ L) ++ [])
   | raises (hs ss : List Str) (L post : Str) (h : raisesDom hs ss L post = true) (hne : ss ≠ []) :
       Structured (unlines hs ++ unlines ss ++ L ++ '\n' :: post)
+  | noToken (hs : List Str) (F rest : Str) (h : noTokenDom hs F rest = true) :
+      Structured (unlines hs ++ F ++ '\n' :: rest)
+  | singleLine (hs : List Str) (L : Str) (h : singleLineDom hs L = true) : Structured (unlines hs ++ L)
+  | numpy (hs es : List Str) (K D body : Str) (h : numpyDom hs es K D body = true) :
+      Structured (unlines hs ++ unlines es ++ K ++ '\n' :: (D ++ '\n' :: body))
 
 /-- **`C15.C15_split_full` restricted to the domain is a theorem** — no ordering hypothesis: on every structured
     docstring the walkers' indices are ordered and the three slices concatenate to the original. -/
 theorem C15_split_structured (d : Str) (s l : Int) (hd : Structured d) (h : idxPair d = .ok (s, l)) :
-    0 ≤ s ∧ s ≤ l ∧ Partitions d s l := by
+    (s ≤ l ∨ l = -1) ∧ Partitions d s l := by
   cases hd with
   | compact hs ss L T footer hdom =>
     have hidx := field_compact_split hs ss L T footer hdom
-    exact ⟨(exact_ordered _ _ _ hidx s l h).1, (exact_ordered _ _ _ hidx s l h).2, exact_partitions _ _ _ hidx s l h⟩
+    exact ⟨Or.inl (exact_ordered _ _ _ hidx s l h).2, exact_partitions _ _ _ hidx s l h⟩
   | adjacent hs ss L footer hdom =>
     have hidx := field_adjacent_split hs ss L footer hdom
-    exact ⟨(exact_ordered _ _ _ hidx s l h).1, (exact_ordered _ _ _ hidx s l h).2, exact_partitions _ _ _ hidx s l h⟩
+    exact ⟨Or.inl (exact_ordered _ _ _ hidx s l h).2, exact_partitions _ _ _ hidx s l h⟩
   | absorbed hs ss L post hdom =>
     obtain ⟨sec, hsec, hidx⟩ := field_absorbed_pieces hs ss L post hdom
     rw [hsec] at h ⊢
-    exact ⟨(exact_ordered _ _ _ hidx s l h).1, (exact_ordered _ _ _ hidx s l h).2, exact_partitions _ _ _ hidx s l h⟩
+    exact ⟨Or.inl (exact_ordered _ _ _ hidx s l h).2, exact_partitions _ _ _ hidx s l h⟩
   | unterminated hs ss L hdom =>
     have hidx := field_unterminated_split hs ss L hdom
-    exact ⟨(exact_ordered _ _ _ hidx s l h).1, (exact_ordered _ _ _ hidx s l h).2, exact_partitions _ _ _ hidx s l h⟩
+    exact ⟨Or.inl (exact_ordered _ _ _ hidx s l h).2, exact_partitions _ _ _ hidx s l h⟩
   | raises hs ss L post hdom hne =>
     obtain ⟨sec, hsec, hidx⟩ := field_raises_pieces hs ss L post hdom hne
     have hd : unlines hs ++ unlines ss ++ L ++ '\n' :: post = unlines hs ++ sec ++ ('\n' :: (L ++ '\n' :: post)) := by
       rw [hsec]; simp
     rw [hd] at h ⊢
-    exact ⟨(exact_ordered _ _ _ hidx s l h).1, (exact_ordered _ _ _ hidx s l h).2, exact_partitions _ _ _ hidx s l h⟩
+    exact ⟨Or.inl (exact_ordered _ _ _ hidx s l h).2, exact_partitions _ _ _ hidx s l h⟩
 
-/-- `idx_ordered`: on the domain `start ≤ last` -/
-theorem idx_ordered (d : Str) (s l : Int) (hd : Structured d) (h : idxPair d = .ok (s, l)) : s ≤ l :=
-  (C15_split_structured d s l hd h).2.1
+  | noToken hs F rest hdom =>
+    obtain ⟨hidx, _, hpart⟩ := field_no_token_split hs F rest hdom
+    rw [hidx] at h
+    injection h with h
+    simp only [Prod.mk.injEq] at h
+    rw [← h.1, ← h.2]
+    exact ⟨Or.inr rfl, hpart⟩
+  | singleLine hs L hdom =>
+    obtain ⟨hidx, _⟩ := field_single_line_split hs L hdom
+    rw [hidx] at h
+    injection h with h
+    simp only [Prod.mk.injEq] at h
+    rw [← h.1, ← h.2]
+    exact ⟨Or.inl (by omega), slice_partition _ _ _ (by omega) (Or.inl (by omega))⟩
+  | numpy hs es K D body hdom =>
+    obtain ⟨s', l', hidx, hs', hlt, _, _, hpart⟩ := numpy_partitions hs es K D body hdom
+    rw [hidx] at h
+    injection h with h
+    simp only [Prod.mk.injEq] at h
+    rw [← h.1, ← h.2]
+    exact ⟨Or.inl (by omega), hpart⟩
+
+/-- `idx_ordered`: on the domain `start ≤ last`, or `last = −1` (no token word at all) -/
+theorem idx_ordered (d : Str) (s l : Int) (hd : Structured d) (h : idxPair d = .ok (s, l)) : s ≤ l ∨ l = -1 :=
+  (C15_split_structured d s l hd h).1
 
 /-! ## non-vacuity: concrete docstrings -/
 
@@ -440,6 +702,34 @@ example : idxPair (unlines exHs ++ unlines exSs4 ++ cs!"Raises:" ++ '\n' :: cs!"
 example : adjacentDom exHs [cs!":param a: first"] cs!":param b: second" cs!"Notes directly after.\n" = true := by decide +kernel
 example : unterminatedDom exHs [cs!":param a: first"] cs!":param b: second" = true := by decide +kernel
 
+/-- ReST with only a return entry: no member of `TOKENS_SET` occurs as a word, `last = −1`, no footer -/
+example : noTokenDom [cs!"Summary.", []] cs!":return: the result" cs!":rtype: ```int```\n\nNotes.\n" = true := by decide +kernel
+example : idxPair cs!"Summary.\n\n:return: the result\n:rtype: ```int```\n\nNotes.\n" = .ok (10, -1) :=
+  (field_no_token_split [cs!"Summary.", []] cs!":return: the result" cs!":rtype: ```int```\n\nNotes.\n" (by decide +kernel)).1
+
+/-- NumPy: `Parameters` and `Returns` sections, prose after them -/
+def exHsN : List Str := [cs!"Summary line.", [], cs!"Second paragraph", cs!"continues here.", []]
+def exEsN : List Str := [cs!"Parameters", cs!"----------", cs!"a : int", cs!"    first", cs!"b : str", cs!"    second", []]
+def exBodyN : Str := cs!"bool\n    the result\n\nNotes about usage.\n"
+def exDocN : Str := cs!"Summary line.\n\nSecond paragraph\ncontinues here.\n\nParameters\n----------\na : int\n    first\nb : str\n    second\n\nReturns\n-------\nbool\n    the result\n\nNotes about usage.\n"
+example : numpyDom exHsN exEsN cs!"Returns" cs!"-------" exBodyN = true := by decide +kernel
+example : unlines exHsN ++ unlines exEsN ++ cs!"Returns" ++ '\n' :: (cs!"-------" ++ '\n' :: exBodyN) = exDocN := by decide +kernel
+/-- instance of `numpy_no_colon_cut`: start = 49 = |header|, last = 126 = (start of `bool`) + 1 — the footer slice is
+    `"ool\n    the result\n\nNotes about usage.\n"` -/
+example : idxPair exDocN = .ok (49, 126) := by
+  have h := numpy_no_colon_cut exHsN exEsN cs!"Returns" cs!"-------" exBodyN (by decide +kernel) (by decide +kernel)
+  have e : unlines exHsN ++ unlines exEsN ++ cs!"Returns" ++ '\n' :: (cs!"-------" ++ '\n' :: exBodyN) = exDocN := by decide +kernel
+  have e1 : (unlines exHsN).length = 49 := by decide +kernel
+  have e2 : numpyBodyStart exHsN exEsN cs!"Returns" cs!"-------" + 1 = 126 := by decide +kernel
+  rw [e, e1, e2] at h; exact h
+example : idxPair exDocN = .ok (49, 126) := idxPair_of_F _ _ (by decide +kernel)
+example : (rawParts exDocN 49 126).2.2 = some cs!"ool\n    the result\n\nNotes about usage.\n" := by decide +kernel
+/-- NumPy with a `Parameters` section only (the body has colons: `numpy_split` applies, the loop's answer is evaluated) -/
+example : numpyDom exHsN [] cs!"Parameters" cs!"----------" cs!"a : int\n    first\nb : str\n    second\n\nNotes about usage.\n" = true := by
+  decide +kernel
+example : idxPair cs!"Summary line.\n\nSecond paragraph\ncontinues here.\n\nParameters\n----------\na : int\n    first\nb : str\n    second\n\nNotes about usage.\n"
+    = .ok (49, 98) := idxPair_of_F _ _ (by decide +kernel)
+
 /-! ## which clauses are essential — witnesses evaluated on the model (`idxPairF`, proved equal to `idxPair`), each
 replayed on the real `_get_token_start_idx` / `_get_token_last_idx`, which return the same pair -/
 
@@ -478,6 +768,14 @@ theorem section_start_needed :
     ∧ idxPair cs!"Summary.\n\nsee :param a: first\n\nNotes.\n" = .ok (-1, 38) :=
   ⟨by decide +kernel, idxPair_of_F _ _ (by decide +kernel)⟩
 
+/-- **the first section line must be terminated by a newline**: instance of `field_single_line_split` — the header is not
+    split off (start = −1); on the real code `ensure_doc_args_whence_original("Other.\n\n:param a: the thing, reworded\n",
+    this)` returns `":param a: the thing, reworded\n"`: both header paragraphs of the original are lost -/
+theorem single_line_witness :
+    singleLineDom [cs!"Summary.", [], cs!"More prose here.", []] cs!":param a: the thing" = true
+    ∧ idxPair cs!"Summary.\n\nMore prose here.\n\n:param a: the thing" = .ok (-1, 47) :=
+  ⟨by decide +kernel, idxPair_of_F _ _ (by decide +kernel)⟩
+
 /-- **`L` must not be `Raises:`** (adjacent / absorbed): instance of `raises_only_not_partition` — a realistic Google
     docstring with only a `Raises:` section has start = 10 > last = 9 -/
 theorem raises_only_witness :
@@ -498,5 +796,35 @@ theorem rtype_lands_in_footer :
     ∧ (rawParts cs!"Summary.\n\n:param a: first\n:type a: int\n:return: r\n:rtype: int\n\nNotes.\n" 10 49).2.2
         = some cs!"\n:rtype: int\n\nNotes.\n" :=
   ⟨by decide +kernel, idxPair_of_F _ _ (by decide +kernel), by decide +kernel⟩
+
+/-- NumPy: **the body must be quiet** — a body line `Returns nothing else.` is a token word for `_last_doc_str_token`;
+    the footer slice becomes empty (last = 149 = the length) -/
+theorem numpy_body_quiet_needed :
+    quiet none [] cs!"bool\n    the result\n\nReturns nothing else.\n" = false
+    ∧ idxPair cs!"Summary line.\n\nSecond paragraph\ncontinues here.\n\nParameters\n----------\na : int\n    first\n\nReturns\n-------\nbool\n    the result\n\nReturns nothing else.\n"
+        = .ok (49, 149) :=
+  ⟨by decide +kernel, idxPair_of_F _ _ (by decide +kernel)⟩
+
+/-- NumPy: **the headings must not be indented** (a docstring as it sits in a function body): the header slice is still
+    exact (15), but the footer slice is empty (last = 119 = the length) -/
+theorem numpy_unindented_needed :
+    inSet numpySet cs!"    Returns" = false
+    ∧ idxPair cs!"\n    Summary.\n\n    Parameters\n    ----------\n    a : int\n        first\n\n    Returns\n    -------\n    bool\n        r\n    "
+        = .ok (15, 119) :=
+  ⟨by decide +kernel, idxPair_of_F _ _ (by decide +kernel)⟩
+
+/-- NumPy: **the underline must be at least as long as the heading** -/
+theorem numpy_underline_needed :
+    idxPair cs!"Summary line.\n\nSecond paragraph\ncontinues here.\n\nReturns\n---\nbool\n    the result\n" = .ok (49, 81) :=
+  idxPair_of_F _ _ (by decide +kernel)
+
+/-- NumPy, in-domain: a header sentence mentioning `:param` makes `derive_docstring_format` answer ReST, and the split is
+    the same as without it (`numpy_split` does not depend on the format) -/
+theorem numpy_format_irrelevant :
+    numpyDom [cs!"Summary line.", [], cs!"The role :param is used elsewhere.", []] [cs!"Parameters", cs!"----------", cs!"a : int", cs!"    first", []]
+      cs!"Returns" cs!"-------" cs!"bool\n    the result\n\nNotes about usage.\n" = true
+    ∧ idxPair cs!"Summary line.\n\nThe role :param is used elsewhere.\n\nParameters\n----------\na : int\n    first\n\nReturns\n-------\nbool\n    the result\n\nNotes about usage.\n"
+        = .ok (51, 109) :=
+  ⟨by decide +kernel, idxPair_of_F _ _ (by decide +kernel)⟩
 
 end C15Struct
